@@ -15,6 +15,7 @@
 from __future__ import annotations
 
 import ast
+import re as _re
 import typing as t
 
 from .. import astq, guards
@@ -704,3 +705,684 @@ class StateFlow:
 def flat(v: Val) -> set[str]:
     """the plain tags in a value (what a single state expression may be)."""
     return {s for s in v if isinstance(s, str)}
+
+
+# ----------------------------------------------------------------------
+# what does a string end with, on every path: abstract execution of the function(s) that build rule parts
+#
+# Values: ("b", bool) a known flag; ("s", exact, tail) a string of which the last characters are known (exact: the whole
+# text); DATA a run-time value the analysis does not follow (input); TOP a value the analysis lost (a call it cannot
+# look into was handed a followed string).  A state maps local names to values (absent = DATA); per CFG node the *set*
+# of states that reach it is kept, so a flag and the text it goes with stay correlated (`if not static: content +=
+# anchor` ... `RulePart(content, static=static)`).  Tails are cut to KEEP characters, which makes the domain finite.
+
+KEEP = 16
+_RUN = _re.compile(r"(.)\1{3,}(?!.*(.)\2{3,})", _re.S)
+TOP: t.Any = ("?",)
+DATA: t.Any = ("d",)
+PURE_CALLS = {"len", "str", "repr", "int", "float", "tuple", "list", "set", "frozenset", "dict", "sorted", "enumerate", "zip", "range", "min", "max",
+              "isinstance", "getattr", "hasattr", "iter", "next", "print", "id", "type", "abs", "sum", "any", "all", "map", "filter", "reversed"}
+
+
+def vb(b: bool) -> t.Any:
+    return ("b", bool(b))
+
+
+def vs(exact: bool, tail: str) -> t.Any:
+    """a string value; the known end is cut to KEEP characters and to at most three repetitions of one character (a
+    shorter known end is still a known end), which keeps the set of values finite and small."""
+    mrun = _RUN.search(tail)
+    if mrun is not None:
+        exact, tail = False, tail[mrun.end() - 3:]
+    if len(tail) > KEEP:
+        return ("s", False, tail[-KEEP:])
+    return ("s", bool(exact), tail)
+
+
+def is_s(v: t.Any) -> bool:
+    return v[0] == "s"
+
+
+def show(v: t.Any) -> str:
+    if v[0] == "b":
+        return str(v[1])
+    if v[0] == "s":
+        return f"`{v[2]}`" if v[1] else ("<text>" if not v[2] else f"<text>`{v[2]}`")
+    return "<input>" if v is DATA or v == DATA else "<lost>"
+
+
+def concat(a: t.Any, b: t.Any) -> t.Any:
+    if a == TOP or b == TOP:
+        return TOP
+    if a[0] == "b" or b[0] == "b":
+        return TOP
+    if a == DATA and b == DATA:
+        return DATA
+    if is_s(b):
+        if b[1]:
+            if is_s(a):
+                return vs(a[1], a[2] + b[2])
+            return vs(False, b[2])
+        return vs(False, b[2])
+    return vs(False, "")  # <string> + <input>: a string whose end is input
+
+
+def join_values(vals: t.Iterable[t.Any]) -> t.Any:
+    vals = list(vals)
+    if not vals:
+        return DATA
+    out = vals[0]
+    for v in vals[1:]:
+        if v == out:
+            continue
+        if out == TOP or v == TOP:
+            return TOP
+        if is_s(out) and is_s(v):
+            a, b = out[2], v[2]
+            i = 0
+            while i < min(len(a), len(b)) and a[-1 - i] == b[-1 - i]:
+                i += 1
+            out = vs(False, a[len(a) - i:])
+        else:
+            out = DATA
+    return out
+
+
+def truth(v: t.Any) -> bool | None:
+    if v[0] == "b":
+        return v[1]
+    if is_s(v):
+        if v[1]:
+            return bool(v[2])
+        return True if v[2] else None
+    return None
+
+
+class PartSite(t.NamedTuple):
+    call: ast.Call
+    where: t.Any  # FuncInfo of the function the construction is written in (or the enclosing one for a closure)
+    fields: tuple[tuple[str, t.Any], ...]
+    murky: tuple[str, ...]  # conditions on followed values that were met on the way and that the evaluator could not read
+
+
+class TailFlow:
+    def __init__(self, repo: t.Any, fields: list[str], is_ctor: t.Callable[[ast.AST | None, ast.Call], bool], limit: int = 60000):
+        self.repo = repo
+        self.fields = fields
+        self.is_ctor = is_ctor
+        self.sites: list[PartSite] = []
+        self._seen_sites: set[tuple[int, tuple[tuple[str, t.Any], ...], tuple[str, ...]]] = set()
+        self.limit = limit
+        self.steps = 0
+        self._stack: list[int] = []
+        self._memo: dict[t.Any, tuple[t.Any, list[dict[str, t.Any]]]] = {}
+        self.analysed: list[t.Any] = []
+        self._consts: dict[tuple[int, str], t.Any] = {}
+
+    # -- functions -----------------------------------------------------
+    def run(self, fi: FuncInfo) -> None:
+        hr = HelperResolver(self.repo, fi)
+        self._function(fi.node, fi, hr, {}, ())
+
+    def _function(self, fn: ast.AST, where: t.Any, hr: HelperResolver, env: dict[str, t.Any], murky: tuple[str, ...]) -> tuple[t.Any, list[dict[str, t.Any]]]:
+        env = {k: v for k, v in env.items() if v != DATA}
+        key = (id(fn), tuple(sorted(env.items())), murky)
+        if key in self._memo:
+            return self._memo[key]
+        if id(fn) in self._stack or len(self._stack) >= 8:
+            return TOP, []
+        if where not in self.analysed:
+            self.analysed.append(where)
+        self._stack.append(id(fn))
+        try:
+            cfg = hr.cfg(fn)
+            seen: dict[int, set[t.Any]] = {}
+            rets: list[t.Any] = []
+            exits: list[dict[str, t.Any]] = []
+            work: list[tuple[Node, dict[str, t.Any], tuple[str, ...]]] = [(cfg.entry, dict(env), murky)]
+            while work:
+                n, st, mk = work.pop()
+                st = {k: v for k, v in st.items() if v != DATA}
+                fz = (tuple(sorted(st.items())), mk)
+                bucket = seen.setdefault(n.id, set())
+                if fz in bucket:
+                    continue
+                bucket.add(fz)
+                self.steps += 1
+                if self.steps > self.limit:
+                    raise AnalysisError("abstract execution of the rule-part builders did not settle")
+                if n is cfg.exit:
+                    exits.append(st)
+                    continue
+                if n is cfg.raise_exit:
+                    continue
+                for succ, st2, mk2 in self._transfer(cfg, n, st, mk, fn, where, hr, rets):
+                    work.append((succ, st2, mk2))
+            is_gen = any(isinstance(x, (ast.Yield, ast.YieldFrom)) for x in _own_nodes(fn))
+            rv = DATA if is_gen else join_values(rets) if rets else DATA
+            out = (rv, exits)
+        finally:
+            self._stack.pop()
+        self._memo[key] = out
+        return out
+
+    # -- one CFG node --------------------------------------------------
+    def _transfer(self, cfg: CFG, n: Node, st: dict[str, t.Any], mk: tuple[str, ...], fn: ast.AST, where: t.Any, hr: HelperResolver, rets: list[t.Any]) -> list[tuple[Node, dict[str, t.Any], tuple[str, ...]]]:
+        a = n.ast
+        normal = [s for s, l in n.succs if l != "exc"]
+        excs = [s for s, l in n.succs if l == "exc"]
+        out: list[tuple[Node, dict[str, t.Any], tuple[str, ...]]] = [(s, st, mk) for s in excs]
+        ev = lambda e, env: self.ev(e, env, mk, fn, where, hr)  # noqa: E731
+        if a is None or n.kind in ("entry", "join"):
+            return out + [(s, st, mk) for s in normal]
+        if n.kind == "test":
+            for pre in self._forks(a, st):
+                env = dict(pre)
+                for w in ast.walk(a):
+                    if isinstance(w, ast.NamedExpr):
+                        env[w.target.id] = ev(w.value, env)
+                scratch = dict(env)
+                ev(a, scratch)  # constructions / helper calls inside the condition
+                d, murk = self.decide(a, env, mk, fn, where, hr)
+                for label, val in (("T", True), ("F", False)):
+                    if d is not None and d != val:
+                        continue
+                    env2 = dict(env)
+                    mk2 = mk
+                    if d is None:
+                        if isinstance(a, ast.Name):
+                            cur = env2.get(a.id, DATA)
+                            env2[a.id] = vb(val) if not is_s(cur) else (cur if val else vs(True, ""))
+                        if murk:
+                            mk2 = tuple(sorted(set(mk) | {norm(a)[:60]}))
+                    out.extend((s, env2, mk2) for s in cfg.succ(n, label))
+            return out
+        if n.kind == "loop":
+            env = dict(st)
+            ev(a.iter, env)  # type: ignore[union-attr]
+            envT = dict(env)
+            for nm in _assigned_names([a.target]):  # type: ignore[union-attr]
+                envT[nm] = DATA
+            return out + [(s, envT, mk) for s in cfg.succ(n, "T")] + [(s, env, mk) for s in cfg.succ(n, "F")]
+        if n.kind == "with":
+            env = dict(st)
+            for it in a.items:  # type: ignore[union-attr]
+                ev(it.context_expr, env)
+                if it.optional_vars is not None:
+                    for nm in _assigned_names([it.optional_vars]):
+                        env[nm] = DATA
+            return out + [(s, env, mk) for s in normal]
+        if n.kind == "handler":
+            env = dict(st)
+            if isinstance(a, ast.ExceptHandler) and a.name:
+                env[a.name] = DATA
+            return out + [(s, env, mk) for s in normal]
+        # statements
+        for pre in self._forks(a, st):
+            env = dict(pre)
+            if isinstance(a, (ast.Assign, ast.AnnAssign)):
+                if a.value is not None:
+                    tgs = a.targets if isinstance(a, ast.Assign) else [a.target]
+                    if len(tgs) == 1 and isinstance(tgs[0], (ast.Tuple, ast.List)) and isinstance(a.value, (ast.Tuple, ast.List)) and len(tgs[0].elts) == len(a.value.elts) \
+                            and not any(isinstance(x, ast.Starred) for x in [*tgs[0].elts, *a.value.elts]):
+                        vals = [ev(x, env) for x in a.value.elts]
+                        for tg, v in zip(tgs[0].elts, vals):
+                            self._bind(tg, v, env, ev)
+                    else:
+                        v = ev(a.value, env)
+                        for tg in tgs:
+                            self._bind(tg, v, env, ev)
+            elif isinstance(a, ast.AugAssign):
+                v = ev(a.value, env)
+                if isinstance(a.target, ast.Name):
+                    cur = env.get(a.target.id, DATA)
+                    env[a.target.id] = concat(cur, v) if isinstance(a.op, ast.Add) else (TOP if is_s(cur) else DATA)
+                else:
+                    if isinstance(a.target, ast.Attribute) and a.target.attr in self.fields:
+                        raise AnalysisError(f"`{norm(a)[:70]}`: a rule part's field is changed after the part was built")
+                    ev(a.target, env)
+            elif isinstance(a, ast.Return):
+                rets.append(ev(a.value, env) if a.value is not None else DATA)
+            elif isinstance(a, (ast.FunctionDef, ast.AsyncFunctionDef, ast.ClassDef)):
+                env[a.name] = DATA
+            elif isinstance(a, (ast.Import, ast.ImportFrom, ast.Global, ast.Nonlocal, ast.Pass, ast.Break, ast.Continue)):
+                pass
+            elif isinstance(a, ast.Delete):
+                for nm in _assigned_names([a]):
+                    env[nm] = DATA
+            else:
+                for ch in ast.iter_child_nodes(a):
+                    if isinstance(ch, ast.expr):
+                        ev(ch, env)
+            out.extend((s, env, mk) for s in normal)
+        return out
+
+    def _bind(self, tg: ast.AST, v: t.Any, env: dict[str, t.Any], ev: t.Callable[[ast.AST, dict[str, t.Any]], t.Any]) -> None:
+        if isinstance(tg, ast.Name):
+            env[tg.id] = v
+        elif isinstance(tg, (ast.Tuple, ast.List, ast.Starred)):
+            for nm in _assigned_names([tg]):
+                env[nm] = DATA if v != TOP else TOP
+        elif isinstance(tg, ast.Attribute):
+            if tg.attr in self.fields and not (isinstance(tg.value, ast.Name) and tg.value.id in ("self", "cls")):
+                raise AnalysisError(f"`{norm(tg)} = ...`: a rule part's field is changed after the part was built")
+            ev(tg.value, env)
+        elif isinstance(tg, ast.Subscript):
+            ev(tg.value, env)
+            ev(tg.slice, env)
+
+    def _forks(self, a: ast.AST, st: dict[str, t.Any]) -> list[dict[str, t.Any]]:
+        """conditional expressions / `and`-`or` values inside one statement that test a flag of unknown value: the state
+        is split on the flag first, so that the value chosen stays tied to the flag."""
+        names: list[str] = []
+        for x in ast.walk(a):
+            tests: list[ast.AST] = []
+            if isinstance(x, ast.IfExp):
+                tests.append(x.test)
+            elif isinstance(x, ast.BoolOp):
+                tests.extend(x.values)
+            for tst in tests:
+                while isinstance(tst, ast.UnaryOp) and isinstance(tst.op, ast.Not):
+                    tst = tst.operand
+                if isinstance(tst, ast.Name) and truth(st.get(tst.id, DATA)) is None and not is_s(st.get(tst.id, DATA)) and st.get(tst.id, DATA) != TOP and tst.id not in names:
+                    names.append(tst.id)
+        states = [st]
+        for nm in names[:4]:
+            states = [{**s, nm: vb(b)} for s in states for b in (True, False)]
+        return states
+
+    # -- conditions ----------------------------------------------------
+    def _tracked(self, e: ast.AST, env: dict[str, t.Any]) -> bool:
+        return any(isinstance(x, ast.Name) and isinstance(x.ctx, ast.Load) and env.get(x.id, DATA)[0] in ("b", "s", "?") for x in ast.walk(e))
+
+    def decide(self, e: ast.AST, env: dict[str, t.Any], mk: tuple[str, ...], fn: ast.AST, where: t.Any, hr: HelperResolver) -> tuple[bool | None, bool]:
+        """(truth value or None, whether an undecided condition is one over followed values whose form is not read)."""
+        ev = lambda x: self.ev(x, dict(env), mk, fn, where, hr)  # noqa: E731
+        rec = lambda x: self.decide(x, env, mk, fn, where, hr)  # noqa: E731
+        if isinstance(e, ast.Constant):
+            return bool(e.value), False
+        if isinstance(e, ast.NamedExpr):
+            return rec(e.value)
+        if isinstance(e, ast.UnaryOp) and isinstance(e.op, ast.Not):
+            d, m = rec(e.operand)
+            return (None if d is None else not d), m
+        if isinstance(e, ast.BoolOp):
+            is_and = isinstance(e.op, ast.And)
+            unknown = False
+            murk = False
+            for v in e.values:
+                d, m = rec(v)
+                if d is None:
+                    unknown, murk = True, murk or m
+                elif d != is_and:
+                    return d, False
+            return (None, murk) if unknown else (is_and, False)
+        if isinstance(e, ast.Compare) and len(e.ops) == 1:
+            l, r = ev(e.left), ev(e.comparators[0])
+            op = e.ops[0]
+            if isinstance(op, (ast.Eq, ast.NotEq, ast.Is, ast.IsNot)):
+                neg = isinstance(op, (ast.NotEq, ast.IsNot))
+                known = lambda v: v[0] == "b" or (is_s(v) and v[1])  # noqa: E731
+                if known(l) and known(r):
+                    same = l == r
+                    return (same != neg), False
+                if isinstance(op, (ast.Eq, ast.NotEq)) and is_s(l) and is_s(r):
+                    # a string whose end is known against a constant: different ends decide it
+                    a, b = l[2], r[2]
+                    k = min(len(a), len(b))
+                    if k and a[len(a) - k:] != b[len(b) - k:]:
+                        return neg, False
+                    return None, False
+                for x, y in ((l, e.comparators[0]), (r, e.left)):
+                    if isinstance(y, ast.Constant) and y.value is None and (x[0] in ("b", "s")):
+                        return neg, False  # a flag / string is not None
+                if is_s(l) or is_s(r):
+                    return None, False
+            return None, self._tracked(e, env)
+        if isinstance(e, ast.Call) and isinstance(e.func, ast.Attribute) and e.func.attr in ("endswith", "startswith") and len(e.args) == 1 and not e.keywords:
+            recv, arg = ev(e.func.value), ev(e.args[0])
+            if is_s(recv) and is_s(arg) and arg[1]:
+                c = arg[2]
+                if recv[1]:
+                    return (recv[2].endswith(c) if e.func.attr == "endswith" else recv[2].startswith(c)), False
+                if e.func.attr == "endswith":
+                    tail = recv[2]
+                    if len(tail) >= len(c):
+                        return tail.endswith(c), False
+                    if tail and not c.endswith(tail):
+                        return False, False
+                return None, False
+            return None, self._tracked(e, env)
+        if isinstance(e, ast.Call) and isinstance(e.func, ast.Name) and e.func.id == "bool" and len(e.args) == 1 and not e.keywords:
+            return rec(e.args[0])
+        v = ev(e)
+        d = truth(v)
+        if d is not None:
+            return d, False
+        if isinstance(e, ast.Name) or is_s(v):
+            return None, False
+        return None, self._tracked(e, env)
+
+    # -- expressions ---------------------------------------------------
+    def ev(self, e: ast.AST | None, env: dict[str, t.Any], mk: tuple[str, ...], fn: ast.AST, where: t.Any, hr: HelperResolver) -> t.Any:
+        rec = lambda x: self.ev(x, env, mk, fn, where, hr)  # noqa: E731
+        if e is None:
+            return DATA
+        if isinstance(e, ast.Constant):
+            if isinstance(e.value, bool):
+                return vb(e.value)
+            if isinstance(e.value, str):
+                return vs(True, e.value)
+            return DATA
+        if isinstance(e, ast.Name):
+            if e.id in env:
+                return env[e.id]
+            return self._module_constant(e.id, fn, hr)
+        if isinstance(e, ast.NamedExpr):
+            v = rec(e.value)
+            env[e.target.id] = v
+            return v
+        if isinstance(e, ast.JoinedStr):
+            acc = vs(True, "")
+            for part in e.values:
+                if isinstance(part, ast.Constant) and isinstance(part.value, str):
+                    acc = concat(acc, vs(True, part.value))
+                elif isinstance(part, ast.FormattedValue):
+                    inner = rec(part.value)
+                    if part.format_spec is not None:
+                        rec(part.format_spec)
+                    plain = part.conversion == -1 and part.format_spec is None and is_s(inner)
+                    acc = concat(acc, inner if plain else (TOP if inner == TOP else DATA))
+                    if acc == DATA:
+                        acc = vs(False, "")
+            return acc
+        if isinstance(e, ast.BinOp):
+            l, r = rec(e.left), rec(e.right)
+            if isinstance(e.op, ast.Add):
+                return concat(l, r)
+            if isinstance(e.op, ast.Mod) and is_s(l) and l[1]:
+                return self._percent(l[2], e.right, r, rec)
+            return TOP if (is_s(l) or is_s(r) or TOP in (l, r)) and not isinstance(e.op, ast.Mult) else DATA
+        if isinstance(e, ast.IfExp):
+            d, murk = self.decide(e.test, env, mk, fn, where, hr)
+            rec(e.test)
+            if d is True:
+                return rec(e.body)
+            if d is False:
+                return rec(e.orelse)
+            v = join_values([rec(e.body), rec(e.orelse)])
+            return TOP if murk else v
+        if isinstance(e, ast.BoolOp):
+            is_and = isinstance(e.op, ast.And)
+            last: t.Any = DATA
+            for x in e.values:
+                last = rec(x)
+                d, _ = self.decide(x, env, mk, fn, where, hr)
+                if d is None:
+                    for y in e.values[e.values.index(x) + 1:]:
+                        rec(y)
+                    return DATA
+                if d != is_and:
+                    return last if last[0] == "b" else (vb(d) if not is_s(last) else last)
+            return last if last[0] in ("b", "s") else DATA
+        if isinstance(e, ast.UnaryOp) and isinstance(e.op, ast.Not):
+            rec(e.operand)
+            d, _ = self.decide(e.operand, env, mk, fn, where, hr)
+            return DATA if d is None else vb(not d)
+        if isinstance(e, ast.Compare):
+            for x in [e.left, *e.comparators]:
+                rec(x)
+            d, _ = self.decide(e, env, mk, fn, where, hr)
+            return DATA if d is None else vb(d)
+        if isinstance(e, ast.Subscript):
+            base = rec(e.value)
+            rec(e.slice)
+            if is_s(base):
+                return self._slice(base, e.slice)
+            return TOP if base == TOP else DATA
+        if isinstance(e, ast.Call):
+            return self._call(e, env, mk, fn, where, hr)
+        if isinstance(e, (ast.Lambda, ast.ListComp, ast.SetComp, ast.DictComp, ast.GeneratorExp)):
+            for x in ast.walk(e):
+                if isinstance(x, ast.Call) and self.is_ctor(fn, x):
+                    raise AnalysisError(f"`{norm(x)[:60]}`: a rule part built inside a comprehension / lambda is not followed")
+            return DATA
+        if isinstance(e, (ast.Yield, ast.YieldFrom, ast.Await, ast.Starred)):
+            rec(e.value)
+            return DATA
+        if isinstance(e, ast.Attribute):
+            rec(e.value)
+            return DATA
+        for ch in ast.iter_child_nodes(e):
+            if isinstance(ch, ast.expr):
+                rec(ch)
+        return DATA
+
+    def _module_constant(self, name: str, fn: ast.AST, hr: HelperResolver) -> t.Any:
+        """a name that is not a local of the function (nor of the function a closure sits in): a module-level string /
+        flag constant, folded."""
+        key = (id(fn), name)
+        if key in self._consts:
+            return self._consts[key]
+        val: t.Any = DATA
+        scopes = [fn, hr.fi.node]
+        local = any(isinstance(x, ast.Name) and x.id == name and isinstance(x.ctx, (ast.Store, ast.Del)) for sc in scopes for x in ast.walk(sc)) \
+            or any(name in {p.arg for p in [*sc.args.posonlyargs, *sc.args.args, *sc.args.kwonlyargs, *filter(None, [sc.args.vararg, sc.args.kwarg])]} for sc in scopes if hasattr(sc, "args"))
+        if not local and name in hr.fi.module.assigns:
+            try:
+                from ..fold import Folder
+
+                c = Folder(self.repo).name(hr.fi.module, name)
+                if isinstance(c, bool):
+                    val = vb(c)
+                elif isinstance(c, str):
+                    val = vs(True, c)
+            except AnalysisError:
+                val = DATA
+        self._consts[key] = val
+        return val
+
+    @staticmethod
+    def _slice(base: t.Any, sl: ast.AST) -> t.Any:
+        def const_int(x: ast.AST | None) -> int | None:
+            if x is None:
+                return None
+            if isinstance(x, ast.Constant) and isinstance(x.value, int) and not isinstance(x.value, bool):
+                return x.value
+            if isinstance(x, ast.UnaryOp) and isinstance(x.op, ast.USub) and isinstance(x.operand, ast.Constant) and isinstance(x.operand.value, int):
+                return -x.operand.value
+            return None
+
+        _, exact, tail = base
+        if isinstance(sl, ast.Slice):
+            lo, hi, step = const_int(sl.lower), const_int(sl.upper), const_int(sl.step)
+            if (sl.lower is not None and lo is None) or (sl.upper is not None and hi is None) or sl.step is not None and step != 1:
+                return vs(False, "")
+            if exact:
+                return vs(True, tail[lo:hi])
+            if lo is None and hi is not None and hi < 0 and len(tail) >= -hi:
+                return vs(False, tail[:hi])
+            if hi is None and lo is not None and lo < 0 and len(tail) >= -lo:
+                return vs(True, tail[lo:])
+            if hi is None and (lo is None or lo >= 0):
+                return vs(False, tail)
+            return vs(False, "")
+        i = const_int(sl)
+        if i is None:
+            return vs(False, "")
+        if exact:
+            return vs(True, tail[i]) if -len(tail) <= i < len(tail) else TOP
+        if i < 0 and len(tail) >= -i:
+            return vs(True, tail[i])
+        return vs(False, "")
+
+    def _percent(self, fmt: str, right: ast.AST, rv: t.Any, rec: t.Callable[[ast.AST], t.Any]) -> t.Any:
+        specs = list(_re.finditer(r"%(?:\([^)]*\))?[-#0 +]*\d*(?:\.\d+)?[sdrfi%]", fmt))
+        if not specs:
+            return vs(True, fmt)
+        last = specs[-1]
+        after = fmt[last.end():]
+        if last.group().endswith("%"):
+            return vs(False, "")
+        if last.group() == "%s":
+            v = rec(right.elts[-1]) if isinstance(right, ast.Tuple) and right.elts else rv
+            if is_s(v):
+                return vs(False, v[2] + after)
+            if v == TOP:
+                return TOP
+        return vs(False, after)
+
+    def _call(self, e: ast.Call, env: dict[str, t.Any], mk: tuple[str, ...], fn: ast.AST, where: t.Any, hr: HelperResolver) -> t.Any:
+        rec = lambda x: self.ev(x, env, mk, fn, where, hr)  # noqa: E731
+        f = e.func
+        d = dotted(f) or ""
+        if self.is_ctor(fn, e):
+            if any(isinstance(a, ast.Starred) for a in e.args) or any(k.arg is None for k in e.keywords) or len(e.args) > len(self.fields):
+                raise AnalysisError(f"cannot map the arguments of `{norm(e)[:70]}` onto the fields of a rule part")
+            vals: dict[str, t.Any] = {}
+            for i, a in enumerate(e.args):
+                vals[self.fields[i]] = rec(a)
+            for k in e.keywords:
+                vals[k.arg] = rec(k.value)  # type: ignore[index]
+            rec_ = (id(e), tuple(sorted(vals.items())), mk)
+            if rec_ not in self._seen_sites:
+                self._seen_sites.add(rec_)
+                self.sites.append(PartSite(e, where, tuple(sorted(vals.items())), mk))
+            return DATA
+        last = d.rsplit(".", 1)[-1]
+        if last == "cast" and len(e.args) == 2:
+            rec(e.args[0])
+            return rec(e.args[1])
+        if isinstance(f, ast.Attribute) and not (isinstance(f.value, ast.Name) and f.value.id in ("self", "cls")):
+            recv_is_const = isinstance(f.value, (ast.Constant, ast.JoinedStr))
+            recv = rec(f.value) if (recv_is_const or isinstance(f.value, ast.Name) and is_s(env.get(f.value.id, DATA)) or isinstance(f.value, (ast.Subscript, ast.BinOp))) else None
+            if recv is not None and is_s(recv):
+                args = [rec(a) for a in e.args] + [rec(k.value) for k in e.keywords]
+                if f.attr in ("endswith", "startswith"):
+                    dd, _ = self.decide(e, env, mk, fn, where, hr)
+                    return DATA if dd is None else vb(dd)
+                if f.attr == "join" and recv[1] and len(e.args) == 1 and isinstance(e.args[0], (ast.List, ast.Tuple)) and not any(isinstance(x, ast.Starred) for x in e.args[0].elts):
+                    acc = vs(True, "")
+                    for i, x in enumerate(e.args[0].elts):
+                        if i:
+                            acc = concat(acc, recv)
+                        acc = concat(acc, rec(x))
+                        if acc == DATA:
+                            acc = vs(False, "")
+                    return acc
+                if f.attr == "format" and recv[1]:
+                    return self._format(recv[2], e, rec)
+                if TOP in args:
+                    return TOP
+                if f.attr == "lstrip" and not recv[1]:
+                    return vs(False, recv[2])
+                return vs(False, "")  # some other string built from it: its end is not known
+        rr = re_function(self.repo, hr.fi, e, hr.li)
+        if rr == "escape" and len(e.args) == 1:
+            v = rec(e.args[0])
+            if is_s(v) and v[1]:
+                return vs(True, _re.escape(v[2]))
+            return TOP if v == TOP else vs(False, "")
+        if isinstance(f, ast.Name) and f.id == "bool" and len(e.args) == 1:
+            rec(e.args[0])
+            dd, _ = self.decide(e.args[0], env, mk, fn, where, hr)
+            return DATA if dd is None else vb(dd)
+        if isinstance(f, ast.Name) and f.id == "str" and len(e.args) == 1:
+            v = rec(e.args[0])
+            return v if is_s(v) or v == TOP else DATA
+        r = hr.resolve_info(e)
+        if r is not None:
+            return self._helper(e, r, env, mk, fn, where, hr)
+        given = [a.value if isinstance(a, ast.Starred) else a for a in e.args] + [k.value for k in e.keywords]
+        argv = [v for a, v in ((a, rec(a)) for a in given) if not isinstance(a, ast.Constant)]  # a literal handed over is not a followed value
+        if not isinstance(f, ast.Name):
+            rec(f)
+        if last in PURE_CALLS and isinstance(f, ast.Name):
+            return DATA
+        if any(is_s(v) or v == TOP for v in argv):
+            return TOP  # what an unknown callee makes of a followed string is not known
+        return DATA
+
+    def _format(self, fmt: str, e: ast.Call, rec: t.Callable[[ast.AST], t.Any]) -> t.Any:
+        for a in e.args:
+            rec(a)
+        for k in e.keywords:
+            rec(k.value)
+        i = fmt.rfind("}")
+        if i < 0:
+            return vs(True, fmt)
+        after = fmt[i + 1:]
+        if "{" in after or fmt.count("}}"):
+            return vs(False, "")
+        j = fmt.rfind("{")
+        field = fmt[j + 1:i]
+        arg: ast.AST | None = None
+        if field == "":
+            n_auto = fmt.count("{}")
+            arg = e.args[n_auto - 1] if 0 < n_auto <= len(e.args) else None
+        elif field.isdigit():
+            arg = e.args[int(field)] if int(field) < len(e.args) else None
+        elif field.isidentifier():
+            arg = next((k.value for k in e.keywords if k.arg == field), None)
+        if arg is not None:
+            v = rec(arg)
+            if is_s(v):
+                return vs(False, v[2] + after)
+            if v == TOP:
+                return TOP
+        return vs(False, after)
+
+    def _helper(self, e: ast.Call, r: tuple[t.Any, bool], env: dict[str, t.Any], mk: tuple[str, ...], fn: ast.AST, where: t.Any, hr: HelperResolver) -> t.Any:
+        target, skip = r
+        rec = lambda x: self.ev(x, env, mk, fn, where, hr)  # noqa: E731
+        hnode = target.node if isinstance(target, FuncInfo) else target
+        bound = bind_call(hnode, e, skip)
+        argv = [rec(a.value if isinstance(a, ast.Starred) else a) for a in e.args] + [rec(k.value) for k in e.keywords]
+        if bound is None:
+            return TOP if any(is_s(v) or v == TOP for v in argv) else DATA
+        if isinstance(target, FuncInfo):
+            henv: dict[str, t.Any] = {}
+            hhr = HelperResolver(self.repo, target)
+            hwhere: t.Any = target
+        else:
+            henv = {k: v for k, v in env.items()}
+            hhr = hr
+            hwhere = where
+        given = {id(a) for a in e.args} | {id(k.value) for k in e.keywords}
+        for p, a in bound.items():
+            v = rec(a) if id(a) in given else (self.ev(a, {}, mk, fn, where, hr) if isinstance(a, ast.Constant) else DATA)
+            if v != DATA or p in henv:
+                henv[p] = v
+        if skip and hnode.args.args:  # type: ignore[attr-defined]
+            henv.pop(hnode.args.args[0].arg, None)  # type: ignore[attr-defined]
+        rv, exits = self._function(hnode, hwhere, hhr, henv, mk)
+        if not isinstance(target, FuncInfo):
+            nl = {nm for x in _own_nodes(hnode) if isinstance(x, ast.Nonlocal) for nm in x.names}
+            is_gen = any(isinstance(x, (ast.Yield, ast.YieldFrom)) for x in _own_nodes(hnode))
+            for nm in nl:
+                env[nm] = TOP if is_gen or not exits else join_values([s.get(nm, DATA) for s in exits])
+        return rv
+
+
+def _own_nodes(fn: ast.AST) -> t.Iterator[ast.AST]:
+    stack = list(ast.iter_child_nodes(fn))
+    while stack:
+        n = stack.pop()
+        yield n
+        if isinstance(n, (ast.FunctionDef, ast.AsyncFunctionDef, ast.ClassDef, ast.Lambda)):
+            continue
+        stack.extend(ast.iter_child_nodes(n))
+
+
+def re_function(repo: t.Any, fi: FuncInfo, call: ast.Call, li: dict[str, str] | None = None) -> str | None:
+    """`match` / `fullmatch` / `search` / `compile` / `escape` ... when the call is that function of the `re` module."""
+    d = dotted(call.func)
+    if not d:
+        return None
+    try:
+        fq = repo.resolve(fi.module, d, li if li is not None else fi.module.local_imports(fi.node))
+    except Exception:
+        return None
+    if fq and fq.startswith("re."):
+        return fq[3:]
+    return None
